@@ -167,11 +167,31 @@ func checkR02g(p *Prog, r *Report) {
 			}
 			// infeasible: every abstract path of the function that ends in this return is contradictory (the
 			// cases before it are exhaustive)
-			if ips, ok := p.ipaths(f); ok {
+			// callees stay opaque: the case split is local, and splicing the expression translator only
+			// multiplies paths
+			keepAll := map[*ssa.Function]bool{}
+			for _, g := range p.srcFuncs {
+				if g != f {
+					keepAll[g] = true
+				}
+			}
+			ips, okI := p.ipathsKeeping(f, keepAll)
+			if os.Getenv("VERIF_DEBUG") == "R02g" {
+				fmt.Println("R02g ipaths", key, okI, len(ips))
+			}
+			if ok := okI; ok {
 				n := 0
 				for _, ip := range ips {
 					if ip.Exit == "return" && ip.RetIn == ret {
 						n++
+					}
+				}
+				if os.Getenv("VERIF_DEBUG") == "R02g" {
+					for _, ip := range ips {
+						if ip.Exit == "return" && ip.RetIn == ret {
+							fmt.Println("R02g feasible", key, ip.Trace, relList(ip.Rels))
+							break
+						}
 					}
 				}
 				if n == 0 {
